@@ -17,11 +17,16 @@ fn path(f: usize) -> String {
     format!("/ws/{}.td", FILES[f])
 }
 
-/// Text variants of file `f`; the include target is the next file (a->b->c->a).
+pub const VARIANTS: usize = 5;
+
+/// Text variants of file `f`; the include target is the next file (a->b->c->a), in variant 4 the
+/// previous one - at the same byte range as in variant 1, so only the path text differs.
 pub fn variant(f: usize, v: usize) -> String {
     let x = FILES[f];
     let next = FILES[(f + 1) % 3];
+    let prev = FILES[(f + 2) % 3];
     match v {
+        4 => format!("include \"{prev}.td\"\nclass K{x};\nclass {x}4 : K{prev};\n"),
         0 => format!("class K{x};\nclass {x}0;\n"),
         1 => format!("include \"{next}.td\"\nclass K{x};\nclass {x}1 : K{next};\n"),
         2 => format!("// moved\n// down\ninclude \"{next}.td\"\nclass K{x};\ndef {x}2 : K{next};\n"),
@@ -42,8 +47,9 @@ pub enum Op {
 
 pub fn ops() -> Vec<Op> {
     let mut v = Vec::new();
+    // base alphabet first: plain / includes next / includes previous (same range) for each file, and root switches
     for f in 0..3 {
-        for var in 0..4 {
+        for var in [0, 1, 4] {
             v.push(Op::Edit(f, var));
         }
     }
@@ -51,15 +57,20 @@ pub fn ops() -> Vec<Op> {
         v.push(Op::Root(f));
     }
     for f in 0..3 {
-        for var in 0..4 {
+        for var in [2, 3] {
+            v.push(Op::Edit(f, var));
+        }
+    }
+    for f in 0..3 {
+        for var in 0..VARIANTS {
             v.push(Op::Disk(f, var));
         }
     }
     v
 }
 
-/// The first 15 operations (no disk edits) form the base alphabet.
-pub const BASE_OPS: usize = 15;
+/// The first 12 operations form the base alphabet of the deeper pass.
+pub const BASE_OPS: usize = 12;
 
 fn show(op: Op) -> String {
     match op {
@@ -157,9 +168,9 @@ impl Engine for C07 {
 
     fn rule(&self, tier: Tier) -> String {
         format!(
-            "every history of <= {} operations over 27 operations (Edit(file, variant) for 3 files x 4 text variants keeping the root; Root(file); Disk(file, variant) = a non-root file changes on disk and the root is re-selected) \
-             and every history of exactly {} operations over the 15 Edit/Root operations, starting from root a, all files plain; \
-             variants: plain / includes the next file (a->b->c->a, so cycles and diamonds-by-root-switch arise) / same with the include statement moved down two lines / a faulty def; \
+            "every history of <= {} operations over 33 operations (Edit(file, variant) for 3 files x 5 text variants keeping the root; Root(file); Disk(file, variant) = a non-root file changes on disk and the root is re-selected) \
+             and every history of exactly {} operations over 12 base operations (Edit to plain / include-next / include-previous, Root), starting from root a, all files plain; \
+             variants: plain / includes the next file (a->b->c->a, so cycles arise) / same with the include statement moved down two lines / a faulty def / includes the PREVIOUS file at the same byte range as variant 1 (only the path differs); \
              after the last operation of every history (every history is a prefix of longer ones, so every step of every history is compared) the full query transcript of the live host \
              equals that of a fresh host given only the current texts and root. states = distinct (root, variants) configurations reached; transitions = operations applied; non-trivial = histories with an include present at some point.",
             tier.pick(3, 4),
@@ -191,7 +202,7 @@ impl Engine for C07 {
                 }
                 ctx.trace(|| json!({ "history": h, "witness": show_history(h) }));
                 let all = ops();
-                let nontrivial = h.iter().any(|&i| matches!(all[i], Op::Edit(_, 1) | Op::Edit(_, 2) | Op::Disk(_, 1) | Op::Disk(_, 2)));
+                let nontrivial = h.iter().any(|&i| matches!(all[i], Op::Edit(_, 1 | 2 | 4) | Op::Disk(_, 1 | 2 | 4)));
                 let r = guard(|| run_history(h, false));
                 ctx.case(nontrivial);
                 ctx.add("traces", 1);
